@@ -8,9 +8,9 @@ external-function table, flatten context and amount of fuel, the modelled pipeli
 `spec.ExpandSpec`: `normalizeRef`, `removeUnusedShared`, the import loop with `importNewRef` /
 `importKnownRef`, `nameInlinedSchemas` with the namer, `namePointers` with `DeepestRef` and
 `flattenAnonPointer`, `stripOAIGen`, the fixpoint loop, `removeUnused`) returns `ok`, an error, or runs
-out of fuel — never a panic.  The one index expression of that code that can panic, `pr[0]` in
-`stripOAIGenForRef`, is reached only with a non-empty parent list (`strip_site_guarded`), and it does
-panic without the guard (`strip_site_panics_unguarded`).
+out of fuel — never a panic.  The one index expression of that code that could panic, `pr[0]` in
+`stripOAIGenForRef`, is gone with the repair that searches the first parent outside of the definition
+(`strip_never_panics`, `strip_skips_self_references`).
 
 What this does not cover: panics *inside* the libraries the model treats as external functions
 (`spec.ExpandSpec`, `jsonpointer`, `swag`), typed-nil dereferences that the JSON view of a document
@@ -47,19 +47,24 @@ theorem classify_never_panics (fc : Facts) (x : Classify.Ext) (root : J) (fuel :
   rw [NP, h] at this
   cases this
 
-/-- the guard in `stripOAIGen` (`len(r.parents) == 0 ⇒ continue`) is what keeps `pr[0]` in range:
-    `TopmostFirst` returns as many keys as it is given -/
-theorem strip_site_guarded (l : List String) (h : l ≠ []) : SortRef.topmostFirst l ≠ [] :=
-  topmostFirst_ne_nil l h
+/-- `stripOAIGenForRef` alone never panics, whatever entry it is called on (the former `pr[0]` site:
+    the first parent is now found by a search among the parents outside of the definition) -/
+theorem strip_never_panics (fc : Facts) (x : Ext) (st : St) (k : String) (r : NewRef) (w : String) :
+    stripOAIGenForRef fc x st k r ≠ .panic w := by
+  intro h
+  have := np_stripOAIGenForRef fc x st k r
+  rw [NP, h] at this
+  cases this
 
-/-- … and the site is a real one: called on an entry without parents, `stripOAIGenForRef` panics -/
-theorem strip_site_panics_unguarded (fc : Facts) (x : Ext) (st : St) (k : String) (r : NewRef)
-    (h : r.parents = []) : stripOAIGenForRef fc x st k r = .panic "index out of range [0]" := by
-  have hs : SortRef.topmostFirst ([] : List String) = [] := by
-    simp [SortRef.topmostFirst]
+/-- an entry whose parents all lie inside its own definition (an array or map of itself that nothing
+    else refers to) is left alone: no re-inlining into itself -/
+theorem strip_skips_self_references (fc : Facts) (x : Ext) (st : St) (k : String) (r : NewRef)
+    (h : (SortRef.topmostFirst r.parents).findIdx?
+      (fun p => p ≠ r.path && !Str.hasPrefix (r.path ++ "/") p) = none) :
+    stripOAIGenForRef fc x st k r = .ok (st, false) := by
   unfold stripOAIGenForRef
-  rw [h]
   dsimp only
-  rw [hs]
+  rw [h]
+  rfl
 
 end C09
